@@ -24,6 +24,7 @@ import vlib  # noqa: E402
 
 U = "avocado_i2n/intertest_setup.py"
 C = "avocado_i2n/cmd_parser.py"
+G = "avocado_i2n/cartgraph/graph.py"
 
 BRIDGE = ('    for node1 in graph.nodes:\n        for node2 in graph.nodes:\n            if node1 == node2:\n                continue\n'
           '            if node1.bridged_form == node2.bridged_form:\n                if node1.id == node2.id:\n'
@@ -85,6 +86,22 @@ MUTANTS = {
                              "default of to_state changed"),
     "upd-handler-raises": ("update", U, [("                logging.warning(error)\n                continue\n", "                logging.warning(error)\n                raise\n")],
                            "an incompatible worker aborts the update"),
+    # ---- graph.py: TestGraph.flag_intersection
+    "fi-several-accepted": ("graph", G, [("            elif len(matching_nodes) > 1:", "            elif len(matching_nodes) > 2:")],
+                            "two matches are accepted (off by one)"),
+    "fi-none-raises": ("graph", G, [("            if len(matching_nodes) == 0:", "            if len(matching_nodes) == 1:")],
+                       "the test for `no match` is off by one"),
+    "fi-skip-or": ("graph", G, [("if test_node.is_shared_root() and skip_shared_root:", "if test_node.is_shared_root() or skip_shared_root:")],
+                   "`and` -> `or` in the shared-root skip"),
+    "fi-skip-object-roots-ignored": ("graph", G, [("            if test_node.is_object_root() and skip_object_roots:\n                logging.info(\"Skip flag for object root\")\n                continue\n", "")],
+                                     "skip_object_roots ignored"),
+    "fi-flag-types-swapped": ("graph", G, [('            if flag_type == "run":\n                test_node.should_run = flag.__get__(test_node)\n            else:\n                test_node.should_clean = flag.__get__(test_node)\n\n    """parse and get',
+                                            '            if flag_type != "run":\n                test_node.should_run = flag.__get__(test_node)\n            else:\n                test_node.should_clean = flag.__get__(test_node)\n\n    """parse and get')],
+                              "run / clean policies swapped (in flag_intersection only)"),
+    "fi-continue-break": ("graph", G, [('                logging.debug(f"Skip flag for non-overlapping {test_node}")\n                continue', '                logging.debug(f"Skip flag for non-overlapping {test_node}")\n                break')],
+                          "the loop stops at the first node without a match"),
+    "fi-match-prefix": ("graph", G, [('param_key="name", param_val=test_node.setless_form + "$"', 'param_key="name", param_val=test_node.setless_form')],
+                        "the match is no longer anchored at the end of the name"),
     # ---- cmd: inside the three loops that used to be pinned whole
     "cmd-scan-not-in": ("cmd", C, [("                if variant in available_restrictions:", "                if variant not in available_restrictions:")],
                         "primary detection negated"),
@@ -134,6 +151,8 @@ def section(props, start, end):
     return s[s.index(start):s.index(end) + len(end)]
 
 
+_UPD_TMPL = None
+
 TARGETS = {
     "update": (px.update_source, "GenUpdate",
                "import I2N.Lemmas.ToolsFlags\nimport I2N.Lemmas.ToolsReach\nimport I2N.Props.C15\nimport {mod}\n"
@@ -143,6 +162,9 @@ TARGETS = {
             "import I2N.Lemmas.Cmd\nimport {mod}\nnamespace I2N.Props.C11M\nopen I2N.Cmd\n"
             "section MatchesSource\nopen {mod}\n{body}\nend MatchesSource\nend I2N.Props.C11M\n", "C11.lean"),
 }
+
+
+TARGETS["graph"] = ((lambda path: px.update_source(graph_path=path)),) + TARGETS["update"][1:]
 
 
 def main():
